@@ -204,13 +204,17 @@ Definition pre_ok (I : inst) (e : ev) : bool :=
   | EF f => Nat.eqb f FWal || is_tree f
   end.
 
-(* after the manifest is durable: hash-table write-out, then the WAL may go *)
+(* after the manifest is durable: hash-table write-out, then the WAL may go.
+   [EF FWal] is accepted: since the F8 fix, bitbox::post_meta fsyncs the WAL after truncating it
+   (truncate_wal(.., true)); in the post phase the WAL has at most [PTrunc 0] operations pending, so
+   the fsync either does nothing (before the truncation) or makes the truncation durable (after it,
+   when every hash-table page of this sync is durable already). *)
 Definition post_ok (I : inst) (e : ev) : bool :=
   match e with
   | ES f pn c => Nat.eqb f FHt && N.eqb (pm_get (ht_new I) pn) c && negb (N.eqb c 0)
   | EW f pn c => Nat.eqb f FHt && N.eqb (pm_get (ht_new I) pn) c && negb (N.eqb c 0)
   | EC f pn => Nat.eqb f FHt
-  | EF f => Nat.eqb f FHt
+  | EF f => Nat.eqb f FHt || Nat.eqb f FWal
   | ET f len => Nat.eqb f FWal && N.eqb len 0
   end.
 
@@ -254,7 +258,9 @@ Definition discipline (I : inst) (d0 : disk) (tr : list ev) : bool :=
   end.
 
 (* the starting disk: everything of the old image is durable, nothing pending, except that the
-   previous sync's truncation of the WAL may still be unsynced (the source skips that fsync) *)
+   previous sync's truncation of the WAL may still be unsynced (before the F8 fix the source skipped
+   that fsync; with the fix the first alternative of both WAL clauses holds after every complete
+   sync: SyncProto_proofs.v, [next_start_wal_safe]) *)
 Definition start_ok (I : inst) (d0 : disk) : Prop :=
   pm_get (fdur (fget d0 FMeta)) 0%N = m_old I /\ fpend (fget d0 FMeta) = [] /\
   fpend (fget d0 FLn) = [] /\ fpend (fget d0 FBbn) = [] /\ fpend (fget d0 FHt) = [] /\
